@@ -165,6 +165,14 @@ func c03(r *core.Run) {
 			}
 		}
 	}
+	if started >= 0 && stopped >= 0 && stopping < 0 {
+		// no CAS out of the started state: is the stop transition made with a plain store?
+		for _, op := range ops {
+			if op.Op == "store" && op.New != started && op.New != stopped && op.New != starting && op.Fn != a.Serve {
+				r.Bad("S1", core.FuncName(op.Fn), "stop-transition-is-a-compare-and-swap", p.InstrPos(op.Instr), "the stop transition (started -> stopping) is made with a plain atomic store after a separate load instead of one compare-and-swap: two concurrent Shutdown calls can both pass the check, both run the close protocol (connection closed twice, close of a closed channel panics) and both report success")
+			}
+		}
+	}
 	if started < 0 || stopped < 0 || stopping < 0 {
 		r.Unres("S1", "state-constants", fmt.Sprintf("started=%d stopped=%d starting=%d stopping=%d", started, stopped, starting, stopping))
 		return
@@ -339,8 +347,9 @@ func c03(r *core.Run) {
 				storeStarted = op.Instr
 			}
 		}
+		subFn := subscribeFn(p)
 		for _, c := range core.Calls(fn) {
-			if cal := c.Common().StaticCallee(); cal != nil && cal.Name() == "subscribe" {
+			if cal := c.Common().StaticCallee(); cal != nil && (cal == subFn || (subFn == nil && cal.Name() == "subscribe")) {
 				subscribe = c
 			}
 		}
@@ -355,8 +364,20 @@ func c03(r *core.Run) {
 		need := []core.Field{a.NC, a.InCh, a.Cond, a.RWork, a.WorkQueue}
 		for _, f := range need {
 			okInit := false
-			for _, ac := range core.FieldAccesses([]*ssa.Function{fn}, func(g core.Field) bool { return g == f }) {
-				if ac.Kind == "store" && storeStarted != nil && core.Dominates(ac.Instr, storeStarted) && firstGo != nil && core.Dominates(ac.Instr, firstGo) {
+			for _, ac := range core.FieldAccesses(p.Helpers(fn), func(g core.Field) bool { return g == f }) {
+				if ac.Kind != "store" || storeStarted == nil || !beforeWorkers(p, a, ac.Instr, firstGo) {
+					continue
+				}
+				if ac.Fn != fn && !unconditionalIn(ac.Instr) {
+					continue // a conditional store in an initialisation helper
+				}
+				dom := true
+				for _, site := range p.Lift(ac.Instr, fn) {
+					if !core.Dominates(site, storeStarted) {
+						dom = false
+					}
+				}
+				if dom {
 					okInit = true
 				}
 			}
@@ -364,12 +385,14 @@ func c03(r *core.Run) {
 		}
 		// the condition variable's locker is the queue mutex
 		condOK := false
-		for _, b := range fn.Blocks {
-			for _, in := range b.Instrs {
-				if st, ok := in.(*ssa.Store); ok {
-					if f, ok := core.FieldOf(st.Addr); ok && f.Struct == "sync.Cond" && f.Name == "L" {
-						if mf, ok := core.FieldOf(core.Strip(st.Val)); ok && mf == a.Mu {
-							condOK = true
+		for _, f2 := range p.Helpers(fn) {
+			for _, b := range f2.Blocks {
+				for _, in := range b.Instrs {
+					if st, ok := in.(*ssa.Store); ok {
+						if f, ok := core.FieldOf(st.Addr); ok && f.Struct == "sync.Cond" && f.Name == "L" {
+							if mf, ok := core.FieldOf(core.Strip(st.Val)); ok && mf == a.Mu {
+								condOK = true
+							}
 						}
 					}
 				}
@@ -625,7 +648,7 @@ func c03(r *core.Run) {
 		if !ac.Write || ac.Kind == "close" {
 			continue
 		}
-		if ac.Fn == a.Serve && firstGo != nil && core.Dominates(ac.Instr, firstGo) {
+		if beforeWorkers(p, a, ac.Instr, firstGo) {
 			r.OK("N1", core.FuncName(ac.Fn), "store("+a.label(ac.F)+"):init", p.InstrPos(ac.Instr), "written during initialisation, before any other goroutine of this run exists")
 			continue
 		}
@@ -682,6 +705,30 @@ func c03WorkersBeforeStarted(r *core.Run, rule string, a *svcAnchors, root []*ss
 	}
 	ss := workerStartSites(p, a.Serve, a)
 	r.Check(storeStarted != nil && workersDominate(ss, storeStarted), rule, core.FuncName(a.Serve), "go-workers-dom-Store(started)", posOf(p, storeStarted), "all workers are started before the service accepts callbacks", "the service is published as started (enqueue accepts callbacks) before its workers are started: callbacks accepted in between wait for a worker that does not exist yet")
+}
+
+// beforeWorkers: in runs only during serve's initialisation - it lies in serve
+// or in a function private to serve's unit, and every call path from serve to
+// it goes through a call site that dominates the first worker start. Nothing
+// else of this run exists yet, so no other goroutine can observe it.
+func beforeWorkers(p *core.Prog, a *svcAnchors, in ssa.Instruction, firstGo ssa.Instruction) bool {
+	if firstGo == nil || a.Serve == nil {
+		return false
+	}
+	fn := in.Parent()
+	if fn != a.Serve && (fn.Parent() != nil || !p.Within(fn, a.Serve)) {
+		return false
+	}
+	sites := p.Lift(in, a.Serve)
+	if len(sites) == 0 {
+		return false
+	}
+	for _, s := range sites {
+		if !core.Dominates(s, firstGo) {
+			return false
+		}
+	}
+	return true
 }
 
 // firstWorkerStart: the first instruction of serve that starts a worker; what
